@@ -1744,4 +1744,30 @@ def sectionOffsetsCanonical (minor : UInt16) : SectionData → Bool
 def Module.offsetsCanonical (m : Module) : Bool := m.sections.all fun s => sectionOffsetsCanonical m.minor s.data
 
 
+/-! ## example data (non-vacuity examples and the counterexample of Props/C11.lean) -/
+
+/-- a small module with every required section: one program whose body jumps to its end, one
+resource with one task -/
+def exModule (owner : UInt32) : Module :=
+  { major := 1, minor := 1, flags := 0,
+    sections := [
+      ⟨idStringTable, 0, .stringTable [[0x52], [0x54], [0x4d]]⟩,     -- "R", "T", "M"
+      ⟨idTypeTable, 0, .typeTable { offsets := [8], entries := [⟨.primitive, none, .primitive 1 0⟩] }⟩,
+      ⟨idConstPool, 0, .constPool [⟨0, [1]⟩]⟩,
+      ⟨idRefTable, 0, .refTable [⟨.io, owner, 0, []⟩]⟩,
+      ⟨idPouIndex, 0, .pouIndex [⟨1, 2, .program, 0, 5, 0, 0, none, none, [], none⟩]⟩,
+      ⟨idPouBodies, 0, .pouBodies [0x02, 0, 0, 0, 0]⟩,
+      ⟨idResourceMeta, 0, .resourceMeta [⟨0, 1, 2, 3, [⟨1, 0, 1000, none, [2], [0]⟩]⟩]⟩,
+      ⟨idIoMap, 0, .ioMap []⟩ ] }
+
+
+def crc0 : Bytes → UInt32 := fun _ => 0
+
+/-- a type table payload with four stray bytes between the offset table and the only entry -/
+def gapPayload : Bytes :=
+  [1, 0, 0, 0, 12, 0, 0, 0, 0xAA, 0xBB, 0xCC, 0xDD, 0, 0, 0, 0, 0xFF, 0xFF, 0xFF, 0xFF, 1, 0, 0, 0]
+def gapTable (off : UInt32) : TypeTable :=
+  { offsets := [off], entries := [⟨.primitive, none, .primitive 1 0⟩] }
+
+
 end TrustVerif.C11
